@@ -426,20 +426,47 @@ def step_json(st):
     return st
 
 
+MARKER_ROWS = [["**next"], ["**next*", ""], ["**n", ""], ["***inc"], ["***"], ["***d", "x"], [":tpl"], ["::t", "v"], [":::x "],
+               ["k:", "v"], ["author: ", "XYODA"], ["key:\t"], ["key:  ", "v"], ["k:\u00a0", "v"], ["a b:", "v"]]
+
+
+def draw_pre(rng, csv):
+    """what comes before the table under test: nothing, or a block of any kind — separated from the table by a blank
+    line or by nothing at all (the table's `**` row then ends that block)"""
+    r = rng.random()
+    if r < 0.35:
+        return []
+    n = rng.randint(1, 5)
+    kinds = {
+        "metadata": [["author:", "x"]],
+        "rowwise": [["**other"], ["all"], ["c%d" % k for k in range(n)], ["text"] + ["m"] * (n - 1)] +
+                   [["v"] + [str(k) for k in range(1, n)] for _ in range(rng.randint(0, 3))],
+        "transposed": [["**other*"], ["all"]] + [["c%d" % k, "m", "1", "2"] for k in range(n)],
+        "directive": [["***d"]] + [["l%d" % k] for k in range(rng.randint(0, 2))],
+        "template": [[":tpl"], ["::t", "v"]][: rng.randint(1, 2)],
+        "stray": [["stray", "1"]],
+    }
+    k = rng.choice(["metadata", "rowwise", "rowwise", "transposed", "directive", "template", "stray"])
+    pre = [list(x) for x in kinds[k]]
+    if k in ("stray",):
+        pre = [[""]] + pre                       # plain rows open a BLANK block only after a blank row
+    if rng.random() < 0.5:
+        pre.append(rng.choice([[""], ["", ""]] if csv else [[], [""], [None]]))
+    return pre
+
+
 def draw_end(rng, mode):
     csv = mode == "read_csv"
-    pre = []
-    if rng.random() < 0.4:
-        pre = rng.choice([[["author:", "x"], [""]], [["**other"], ["all"], ["c"], ["text"], ["v"], [""]],
-                          [["***d"], ["l"]], [["stray", "1"], [""]], [[""]]])
+    pre = draw_pre(rng, csv)
     r = rng.random()
     tail = rng.choice([[], [["**later"], ["all"], ["c"], ["m"], ["1"]], [["stray"]], [["", "note"]]])
-    if r < 0.34:
+    if r < 0.3:
         return pre, {"by": "eof"}
-    if r < 0.67:
+    if r < 0.55:
         row = rng.choice([[""], ["", ""], [" "], ["", "note"]] if csv else [[], [""], [None], [None, "note"], ["", ""]])
         return pre, {"by": "blank", "row": row, "rest": tail}
-    row = rng.choice([["**next"], ["**next*", ""], ["***inc"], [":tpl"], ["k:", "v"]])
+    # directly the start of another block, in every spelling the marker rule admits
+    row = list(rng.choice(MARKER_ROWS))
     rest = rng.choice([[], [["all"], ["c"], ["m"], ["1"]], [["x"]]])
     return pre, {"by": "next", "row": row, "rest": rest}
 
